@@ -34,15 +34,20 @@ def budget(tier):
 def gen_case(rng, tier, k):
     nmax = 5 if tier == "quick" else 6
     bnet = common.g_mixed(rng, nmax=nmax, p_core=0.3)
-    return {"bnet": bnet, "perm_seed": rng.randrange(1 << 30), "flip": rng.randrange(64), "strategy": rng.choice(["bfs", "dfs", "build"]),
+    st = rng.choice(["bfs", "dfs", "build", "bfs", "scc", "block"])
+    if st in ("scc", "block") and rng.random() < 0.6:
+        bnet = common.g_modulated(rng, extra=False) if tier == "quick" else common.g_modulated(rng)
+    return {"bnet": bnet, "perm_seed": rng.randrange(1 << 30), "flip": rng.randrange(64), "strategy": st,
             "weird": rng.random() < 0.3}
 
 
 def expand(sd, strategy):
-    if strategy == "bfs":
-        sd.expand_bfs()
-    elif strategy == "dfs":
+    if strategy == "dfs":
         sd.expand_dfs()
+    elif strategy == "scc":
+        sd.expand_scc()
+    elif strategy == "block":
+        sd.expand_block()
     else:
         sd.expand_bfs()
     return sd
@@ -108,7 +113,7 @@ def run_case(case):
     orc.ask("bfs", "BFS 0 - -")
     orc.run()
     model = abstract(orc.get("bfs").split(" ", 1)[1])
-    if abstract(common.dump_sd(base, ni)) != model:
+    if case["strategy"] not in ("scc", "block") and abstract(common.dump_sd(base, ni)) != model:
         fails.append({"kind": "base-differs-from-model", "sig": {}, "detail": "fully expanded base presentation differs from the Lean full diagram"})
     for s in ref[3]:
         st = "".join(str(dict(s)[v]) for v in names)
@@ -120,6 +125,8 @@ def run_case(case):
         expand(sd, case["strategy"])
         got = canon(sd, back, flipvar)
         for k, what in enumerate(("nodes", "edges and motifs", "minimal trap spaces")):
+            if k < 2 and case["strategy"] in ("scc", "block"):
+                continue        # these strategies build a presentation-dependent sub-diagram; results must agree
             if got[k] != ref[k]:
                 a, b = got[k], ref[k]
                 fails.append({"kind": "presentation-changes-result", "sig": {"presentation": tag, "what": what}, "detail":
@@ -132,7 +139,7 @@ def run_case(case):
                 fails.append({"kind": "presentation-changes-result", "sig": {"presentation": tag, "what": "seed"}, "detail": f"{tag}: seed {st} lies in no attractor of the base network"})
                 return
             atts.append(orc.state_att[st])
-        if sorted(atts) != ref_atts:
+        if (sorted(set(atts)) != sorted(set(ref_atts))) if case["strategy"] == "scc" else (sorted(atts) != ref_atts):
             fails.append({"kind": "presentation-changes-result", "sig": {"presentation": tag, "what": "attractors"}, "detail": f"{tag}: attractors {sorted(atts)} vs base {ref_atts}"})
         tags.append("presentation:" + tag)
 
@@ -149,10 +156,10 @@ def run_case(case):
     reordered = SuccessionDiagram(reorder_network(BooleanNetwork.from_bnet(txt), order))
     compare("reorder", reordered, ident)
     # the library's own comparison must see the two presentations as the same diagram
-    if not (base.is_isomorphic(reordered) and reordered.is_subgraph(base) and base.is_subgraph(reordered)):
+    if case["strategy"] not in ("scc", "block") and not (base.is_isomorphic(reordered) and reordered.is_subgraph(base) and base.is_subgraph(reordered)):
         fails.append({"kind": "presentation-changes-result", "sig": {"presentation": "reorder", "what": "is_isomorphic"}, "detail":
                       f"is_isomorphic/is_subgraph between the base diagram and the same network declared as {order} is False"})
-    if len(names) >= 2:
+    if len(names) >= 2 and case["strategy"] not in ("scc", "block"):
         partial = SuccessionDiagram(reorder_network(BooleanNetwork.from_bnet(txt), order))
         partial.expand_bfs(bfs_level_limit=0)
         want = len(base) == len(partial) and base.dag.number_of_edges() == partial.dag.number_of_edges()
